@@ -106,3 +106,37 @@ Print Assumptions C19_fragmented_hvcC_refuted.
 Theorem C19_multichannel_dOps_refuted : forall a, 3 <= at_channels a < 256 -> strict_dops (payload_of (build_dops_box a)) = None.
 Proof. exact dops_multichannel_refuted. Qed.
 Print Assumptions C19_multichannel_dOps_refuted.
+
+From Muxide Require Export Model.Writer Model.Api Spec.Checks Spec.HeaderChecks Proofs.EndToEndProofs Proofs.MetaEndToEndProofs.
+(* END TO END: the exact list of header clauses that fail on a finished progressive file, for every
+   configuration and history whose parameter sets fit their 16-bit length fields: clauses 3 (tkhd),
+   4 (track-enabled flag) and 7 (vmhd flags) always [recorded findings KF-C19-1..3]; clause 10 exactly
+   when a VP9 configuration was extracted [KF-C19-4]; clause 11 exactly when the Opus dOps is malformed
+   [KF-C19-5, KF-C19-8]; every other clause (mvhd, mdhd, hdlr, smhd, dref, sample entries, avcC, hvcC,
+   av1C, esds, track ids, next-track id, dimensions, timescales, matrices) holds *)
+Theorem C19_finished_file_header_clauses_exact : forall b m0 ops m rs s,
+  build b [] = inl m0 -> run m0 ops = (m, rs) -> In (RStats s) rs ->
+  Forall op_payload_ok ops -> len (sink_of m) < 4294967296 ->
+  param_sets_fit (effective_config (m_writer m)) ->
+  failed_C19_mux b ops (map class_of rs) (sink_of m) =
+  [3; 4; 7] ++
+  clause 10 (match effective_config (m_writer m) with CfgVp9 _ => false | _ => true end) ++
+  match cfg_audio b with Some a => clause 11 (dops_ok a) | None => [] end.
+Proof. exact finished_file_header_clauses_exact. Qed.
+Print Assumptions C19_finished_file_header_clauses_exact.
+
+Theorem C19_finished_file_header_clauses : forall b m0 ops m rs s cl,
+  build b [] = inl m0 -> run m0 ops = (m, rs) -> In (RStats s) rs ->
+  Forall op_payload_ok ops -> len (sink_of m) < 4294967296 ->
+  Forall (op_params_fit (cfg_codec b)) ops ->
+  In cl (failed_C19_mux b ops (map class_of rs) (sink_of m)) ->
+  cl = 3 \/ cl = 4 \/ cl = 7 \/
+  (cl = 10 /\ cfg_codec b = Vp9) \/
+  (cl = 11 /\ exists a, cfg_audio b = Some a /\ at_codec a = Opus /\ (at_channels a = 0 \/ 2 < at_channels a)).
+Proof. exact finished_file_header_clauses_variant_inputs. Qed.
+Print Assumptions C19_finished_file_header_clauses.
+
+(* without the parameter-set bound the list is different (a 65537-byte SPS makes clause 10 fail for H.264) *)
+Theorem C19_oversized_parameter_set_refuted : ~ header_clauses_claim.
+Proof. exact header_clauses_claim_refuted_big_sps. Qed.
+Print Assumptions C19_oversized_parameter_set_refuted.
